@@ -33,7 +33,7 @@ def Exports.aOrds (e : Exports) : Nat := le32 e.b (e.off + 36)
 -- src: exports.rs:Exports::try_from
 def tryFrom (v : View) : Out Exports :=
   match v.dataDir 0 with
-  | none => .err .bounds
+  | none => .err .null
   | some (va, size) => (v.derva (.rva va) 40 4).bind fun r => .ok ⟨v, va, size, r.off⟩
 
 /-- `&'a IMAGE_EXPORT_DIRECTORY` -/
